@@ -22,6 +22,7 @@ type fakeLimiter1 struct {
 	log    *Logger
 	cap    atomic.Uint32
 	maxcap atomic.Uint32
+	busy   int64 // GiveMe takes this long (ns)
 }
 
 func (f *fakeLimiter1) MaxCapacity() uint32 { return f.maxcap.Load() }
@@ -30,7 +31,12 @@ func (f *fakeLimiter1) Capacity() uint32 {
 	f.log.Logf("L", "capread %d", v)
 	return v
 }
-func (f *fakeLimiter1) GiveMe(v uint32)                     { f.log.Logf("L", "giveme %d", v) }
+func (f *fakeLimiter1) GiveMe(v uint32) {
+	f.log.Logf("L", "giveme %d", v)
+	if f.busy > 0 {
+		time.Sleep(time.Duration(f.busy))
+	}
+}
 func (f *fakeLimiter1) Start(ctx context.Context) error     { return nil }
 func (f *fakeLimiter1) Provision(ctx context.Context) error { return nil }
 func (f *fakeLimiter1) Stop()                               {}
@@ -273,7 +279,7 @@ func RunBatcherV1(t *testing.T, sc *Scenario, out io.Writer) {
 		currentLogger.Store(lg)
 		sc.WriteHeader(lg.w)
 		r := &v1run{sc: sc, log: lg, objs: map[int64]b1.IOperation{}}
-		r.lim = &fakeLimiter1{log: lg}
+		r.lim = &fakeLimiter1{log: lg, busy: sc.BusyCap}
 		for i, wc := range sc.Watchers {
 			r.ws = append(r.ws, r.makeWatcher(i, wc))
 		}
